@@ -343,3 +343,6 @@ def check(run):
     # index folds into a constant of the wrong shape that only the textual IR reader rejects (shared with C01.R7)
     from props import c01
     c01.r7_member_index(run, F)
+    # "the linked program defines every function the source defines": a failed incremental link must not pass for a success
+    from props import c02 as _c02
+    _c02.r10b_default_diagnostic_handler(run, F)
